@@ -39,6 +39,7 @@ size_t hash_len(HashId h);
 size_t hash_block(HashId h);
 Bytes ref_hash(HashId h, const uint8_t *msg, size_t len);
 Bytes ref_hmac(HashId h, const uint8_t *key, size_t key_len, const uint8_t *msg, size_t len);
+Bytes ref_hmac_inner(HashId h, const uint8_t *key, size_t key_len, const uint8_t *msg, size_t len);
 
 // ---- MACs written from the specs
 Bytes ref_cmac(const BlockCipher &c, const uint8_t *msg, uint64_t bit_len);                 // NIST SP 800-38B (bit length: 3GPP EIA2)
